@@ -4,7 +4,7 @@ prop("C13",
      harness="c13_norm",
      runs={
          "quick": [dict(flavour="asan", cases=3000), dict(flavour="rel", cases=12000)],
-         "thorough": [dict(flavour="asan", cases=30000), dict(flavour="rel", cases=150000),
+         "thorough": [dict(flavour="asan", cases=15000), dict(flavour="rel", cases=100000),
                       dict(flavour="memcheck", cases=400)],
      },
      min_nontrivial={"quick": 6000, "thorough": 60000},
@@ -16,6 +16,7 @@ prop("C13",
                         "attenuation_physical_bins_through_cylinder": 100000,
                         "cfg_tof_data_nontof_factors": 100, "cfg_tof_factors": 50, "cfg_anisotropic_grid": 300,
                         "cfg_isotropic_grid": 300, "cfg_default_ray_tracing_projector": 30, "trivial_identity_checks": 100,
+                        "trivial_identity_checks_components": 30,
                         "cfg_pet_symmetry_grouping": 3000},
               "thorough": {"bins_checked_projdata": 1000000, "bins_checked_attenuation": 1000000, "attenuation_tight_bins": 3000000,
                            "attenuation_physical_bins": 1500000, "chains_len1": 1000, "chains_len2": 1000, "chains_len3": 1000,
@@ -45,7 +46,12 @@ prop("C13",
                  "of a centred cylinder of radius R -/+ half a voxel diagonal on isotropic and anisotropic grids"),
      level_note=("trusted: the comparison code in harness/c13_norm.cxx; the tight attenuation oracle trusts the projection-matrix "
                  "values (C03/C04 check those), the physical oracle does not; classes needing scanner files (ECAT7/ECAT8/GE HDF5, "
-                 "SPECT) are not covered"),
+                 "SPECT) are not covered; validated on planted breaks (scratch worktree): undo(ProjData&) calling apply -> "
+                 "<class>:undo-projdata-overload-differs-from-viewgrams; FromProjData::apply ignoring the TOF index of TOF factors -> "
+                 "projdata:apply-is-not-division-by-efficiency; chain undo using the first member twice -> "
+                 "chained:get_bin_efficiency-differs-from-undo-of-ones / chained:apply-is-not-division-by-efficiency; attenuation "
+                 "rescale by voxel_y -> attenuation:factor-is-not-exp-of-line-integral(tight) and ...(physical); PETFromComponents "
+                 "is_trivial ignoring zero bins -> components:reports-trivial-but-zeroes-bins-outside-the-symmetric-fan"),
      assumptions=["BinNormalisationFromAttenuationImage is only exercised on non-TOF data (set_up documents TOF as unsupported) and its "
                   "viewgrams are grouped by the projector's own symmetries (the forward projectors reject any other grouping)",
                   "BinNormalisationPETFromComponents is only exercised on non-TOF, span-1, unmashed, non-arc-corrected cylindrical data "
